@@ -28,12 +28,29 @@ class C15World(E2EWorld):
         st.mon = {"S": {"tx": False, "fin": False, "cancel": False, "aband": False}, "D": {"md": False, "fin": False, "aband": False, "finpdu": None}}
         return st
 
+    FRESH = {"S": {"tx": False, "fin": False, "cancel": False, "aband": False}, "D": {"md": False, "fin": False, "aband": False, "finpdu": None}}
+
+    def eff(self, st):
+        """effective mode / closure of the running transaction (request-level overrides of the second one)"""
+        c = dict(self.c)
+        if st.ntx == 2:
+            t2 = self.cfg["tx2"]
+            if t2.get("req_mode") in ("ack", "unack"):
+                c["mode"] = t2["req_mode"]
+            if t2.get("req_closure") in (True, False):
+                c["closure"] = t2["req_closure"]
+        return c
+
     def apply(self, st, ev):
+        if ev[0] == "put2":
+            st.mon = {w: dict(v) for w, v in self.FRESH.items()}
         pre = {w: dict(st.mon[w]) for w in ("S", "D")}
         s_busy = st.S.h.state.name
         d_busy = st.D.h.state.name
         out = super().apply(st, ev)
         out["pre_mon"] = pre
+        out["ntx"] = st.ntx
+        out["eff"] = [self.eff(st)["mode"], self.eff(st)["closure"]]
         out["pre_state"] = {"S": s_busy, "D": d_busy}
         out["post_state"] = {"S": st.S.h.state.name, "D": st.D.h.state.name}
         mon = {w: dict(st.mon[w]) for w in ("S", "D")}
@@ -58,7 +75,7 @@ class C15World(E2EWorld):
         return out
 
     def quiet(self, obs):
-        return super().quiet({k: v for k, v in obs.items() if k not in ("pre_mon", "pre_state", "post_state")})
+        return super().quiet({k: v for k, v in obs.items() if k not in ("pre_mon", "pre_state", "post_state", "ntx", "eff")})
 
     def enabled(self, st):
         # the user does not cancel a transaction whose completion was already reported
@@ -83,7 +100,9 @@ class C15World(E2EWorld):
         pre_step = out.get("pre_step")
         pdu = out.get("pdu_d") if ev[0] in ("recv", "dlv", "flip", "dlvflip") else None
         exc = o.get("exc")
-        tid = [1, 0]
+        tid = [1, out["ntx"] - 1]
+        if ev[0] == "put2":
+            return v
 
         def bad(clause, msg, **d):
             v.append(Violation(P, clause, f"{ev} ({who} in step {pre_step}, switches eof_sent={es} eof_recv={er} file_segment={fs} finished={tf}): {msg}",
@@ -127,6 +146,11 @@ class C15World(E2EWorld):
                         cancelled=pre["cancel"] or ev[0] == "cancel", mode=c["mode"])
             elif fins:
                 bad("C15.sender_finished_early", "Transaction-Finished indication although the sender's transaction is still active")
+            if fins and completed and out["eff"] == ["unack", False] and not (pre["cancel"] or ev[0] == "cancel") and not o.get("faults"):
+                r = fins[0]
+                if (r["cond"], r["deliv"], r["fstat"]) != ("NO_ERROR", "DATA_COMPLETE", "FILE_STATUS_UNREPORTED"):
+                    bad("C15.sender_finished_params", f"unacknowledged transfer without closure completed nominally but Transaction-Finished carries "
+                                                      f"({r['cond']},{r['deliv']},{r['fstat']})")
             if fins and pdu is not None and pdu["T"] == "FIN":
                 r = fins[0]
                 if (r["cond"], r["deliv"], r["fstat"]) != (pdu["cond"], pdu["deliv"], pdu["fstat"]):
@@ -206,6 +230,10 @@ def configs(tier):
                         ack_limit=2, nak_limit=2, check_limit=2))
     for ind, (mode, closure) in itertools.product(some, (("ack", False), ("unack", True), ("unack", False))):
         out.append(dict(ind=ind, mode=mode, closure=closure, size=2 * L + 1, seg=L, link="ff", cancels=1))
+    # two consecutive transactions on the same handlers, the second with request-level mode / closure
+    for (mode, closure), (m2, c2) in itertools.product((("ack", False), ("unack", True), ("unack", False)), (("ack", False), ("unack", True), ("unack", False))):
+        out.append(dict(mode=mode, closure=closure, size=L + 1, seg=L, link="ff", tx2=dict(req_mode=m2, req_closure=c2)))
+        out.append(dict(mode=mode, closure=closure, size=L + 1, seg=L, link="ff", tx2=dict(req_mode=m2, req_closure=c2), cancels=1))
     return out
 
 
